@@ -250,6 +250,51 @@ Theorem glog_legal s0 tr g :
   run (init s0) tr g -> legal s0 (glog g) (ghost g).
 Proof. intros Hr. eapply run_legal; [exact Hr|]. constructor. Qed.
 
+(* the log lists the operations in the order of their acquire events in the trace *)
+Lemma run_log_order g tr g' :
+  run g tr g' -> map entry_tid (glog g') = map entry_tid (glog g) ++ acq_tids tr.
+Proof.
+  intros Hr. induction Hr as [g|g t lb g1 tr g2 Hs _ IH]; [now rewrite app_nil_r|].
+  rewrite IH. inversion Hs; subst; unfold enter, acq_tids; cbn; try reflexivity.
+  rewrite map_app, <- app_assoc. reflexivity.
+Qed.
+
+Theorem glog_order s0 tr g :
+  run (init s0) tr g -> map entry_tid (glog g) = acq_tids tr.
+Proof. intros Hr. now rewrite (run_log_order _ _ _ Hr). Qed.
+
+(* per-thread protocol of the atomic machine: call, then the linearization
+   point, then the return *)
+Lemma arun_protocol a tr a' t :
+  arun a tr a' -> proto (aphase (a_th a t)) (tproj t tr) = true.
+Proof.
+  intros Hr. induction Hr as [g|g t0 lb g1 tr g2 Hs _ IH]; [reflexivity|].
+  unfold tproj in *. cbn [filter fst]. destruct (Nat.eqb t0 t) eqn:E.
+  - apply Nat.eqb_eq in E. subst t0. cbn [map snd].
+    inversion Hs as [g0 t0 o a0 Hth|g0 t0 o a0 Hth|g0 t0 o r Hth]; subst; cbn [a_th] in IH;
+      rewrite upd_same in IH; rewrite Hth; cbn; exact IH.
+  - apply Nat.eqb_neq in E.
+    assert (Hsame : a_th g1 t = a_th g t).
+    { inversion Hs; subst; cbn; rewrite upd_other by congruence; reflexivity. }
+    rewrite <- Hsame. exact IH.
+Qed.
+
+(* in every schedule of the lock machine each thread's visible events follow
+   call -> acquire -> return: the acquire (linearization point) lies between
+   the call and the return of its operation *)
+Theorem rw_acquire_between s0 tr g t :
+  discipline bodies modes -> run (init s0) tr g -> proto 0 (tproj t (erase tr)) = true.
+Proof.
+  intros disc Hr. destruct (rw_linearizable disc _ _ _ Hr) as (a & Ha & _).
+  exact (arun_protocol _ _ _ t Ha).
+Qed.
+
+Lemma acq_tids_erase (tr : trace Arg Res Op) : acq_tids (erase tr) = acq_tids tr.
+Proof.
+  unfold acq_tids, erase. induction tr as [|[t lb] tr IH]; [reflexivity|].
+  destruct lb; cbn; rewrite ?IH; reflexivity.
+Qed.
+
 (* ---------------- every in-flight operation's logged entry *)
 
 Definition LogInv (g : gstate) : Prop :=
